@@ -209,6 +209,14 @@ def q_rtss(rng, which=None, scalar_only=False):
         cmax = cm_max(rb[2])
         R = rng.choice([cmax, cmax + rng.randint(0, 10), rng.randint(cmax, cmax + 60)])
         wl.append([R, rb[1], rb[2], gen_kind(rng)])
+    if rng.random() < 0.3:
+        # bursty polled callbacks with pairwise distinct KNOWN priorities: the caps eta(t_a) + polling points (+1 for a
+        # higher-priority callback) of Def. 1 / Def. 5 bind only when the interferer releases several instances close together
+        n = rng.randint(2, 4); pr = list(range(n)); rng.shuffle(pr); wl = []
+        for i in range(n):
+            T = rng.randint(4, 30); J = rng.choice([rng.randint(0, T), rng.randint(T, 3 * T)])
+            C = rng.randint(1, max(1, int(T * util / n) + 1))
+            wl.append([rng.choice([C, C + rng.randint(0, 12)]), ["sporadic", T, J], ["scalar", C], ["p", pr[i]] if rng.random() < 0.85 else "pu"])
     idxs = list(range(n)); rng.shuffle(idxs)
     sc = idxs[:rng.choice([1, 1, rng.randint(1, n)])]
     limit = pick_limit(rng) * 2
